@@ -1,4 +1,5 @@
 import AC.Drv.Proto
+import AC.Gen.AccGrammar
 import AC.PrinterX
 /-! driver handler for C07
 
@@ -76,6 +77,8 @@ def handleC07 (f : List String) : Res :=
       let r : Res := {}
       let m := parse text
       let r := cmp "parse" (showRes m) res r
+      -- the published grammar, executed (generic PEG interpreter on the table regenerated from acc.peg)
+      let r := cmp "parse-by-regenerated-grammar" (showRes (AC.PegG.pegParse AC.Gen.accGrammar text)) res r
       -- model of print / reparse / print again, on the model's own tree
       let r := match m with
         | .ok t =>
